@@ -196,4 +196,76 @@ theorem contains_filterMap_id (raw : List (Option Nat)) (p : Nat) :
         have h2 : (some p == some q) = false := by simpa using h
         simp [h1, h2]
 
+/-! ### configuration sources -/
+
+theorem loopTrusted_false (raw : List (Option Nat)) (acc : List Nat) :
+    loopTrusted false raw acc = parseTrusted raw acc := by
+  induction raw generalizing acc with
+  | nil => rfl
+  | cons x rest ih =>
+    cases x with
+    | none => rfl
+    | some p => simp only [loopTrusted, parseTrusted, ih]
+
+theorem filterMap_map_some (l : List Nat) : (l.map some).filterMap id = l := by
+  induction l with
+  | nil => rfl
+  | cons x rest ih => simp [ih]
+
+theorem contains_none_map_some (l : List Nat) : (l.map some).contains none = false := by
+  induction l with
+  | nil => rfl
+  | cons x rest ih =>
+    have : (none == some x) = false := rfl
+    simp only [List.map_cons, List.contains_cons, this, ih, Bool.or_self]
+
+/-- rendering a parsed configuration and parsing it again changes nothing -/
+theorem parse_toJSON (raw : List (Option Nat)) :
+    parseTrusted (toJSONTrust (parseTrusted raw [])) [] = parseTrusted raw [] := by
+  rw [parseTrusted_eq raw []]
+  by_cases h : raw.contains none = true
+  · simp only [h, if_true, toJSONTrust, parseTrusted]
+  · simp only [h, Bool.false_eq_true, if_false, toJSONTrust, List.reverse_nil, List.nil_append]
+    rw [parseTrusted_eq]
+    simp only [contains_none_map_some, filterMap_map_some, Bool.false_eq_true, if_false, List.reverse_nil,
+      List.nil_append]
+
+/-- one source, on a configuration that is the parse of the list in effect -/
+theorem cfgStep_parse (sh : CfgShape) (hd : sh.defaultTrustAll = true)
+    (ha : sh.applyResetsTrustAll = true) (hp : sh.applyResetsPeers = true)
+    (eff : List (Option Nat)) (src : Source) :
+    cfgStep sh (parseTrusted eff []) src = parseTrusted (effStep eff src) [] := by
+  cases src with
+  | default => simp [cfgStep, defaultCfg, hd, effStep, parseTrusted]
+  | load raw => simp [cfgStep, applyJSON, ha, hp, effStep, loopTrusted_false]
+  | env v =>
+    cases v with
+    | none =>
+      simp only [cfgStep, applyJSON, ha, hp, if_true, effStep, loopTrusted_false]
+      exact parse_toJSON eff
+    | some raw => simp [cfgStep, applyJSON, ha, hp, effStep, loopTrusted_false]
+
+theorem foldl_cfgStep_parse (sh : CfgShape) (hd : sh.defaultTrustAll = true)
+    (ha : sh.applyResetsTrustAll = true) (hp : sh.applyResetsPeers = true)
+    (srcs : List Source) (eff : List (Option Nat)) :
+    srcs.foldl (cfgStep sh) (parseTrusted eff []) = parseTrusted (srcs.foldl effStep eff) [] := by
+  induction srcs generalizing eff with
+  | nil => rfl
+  | cons s rest ih =>
+    simp only [List.foldl_cons]
+    rw [cfgStep_parse sh hd ha hp, ih]
+
+theorem parseTrusted_star {raw : List (Option Nat)} (h : starListed raw = true) :
+    parseTrusted raw [] = { trustAll := true, listed := [] } := by
+  have hc : raw.contains none = true := h
+  rw [parseTrusted_eq]; simp only [hc, if_true]
+
+theorem parseTrusted_nostar {raw : List (Option Nat)} (h : starListed raw = false) :
+    parseTrusted raw [] = { trustAll := false, listed := raw.filterMap id } := by
+  have hc : raw.contains none = false := h
+  rw [parseTrusted_eq]; simp only [hc, Bool.false_eq_true, if_false, List.reverse_nil, List.nil_append]
+
+theorem sameSetNat_refl (l : List Nat) : sameSetNat l l = true := by
+  simp [sameSetNat]
+
 end CV.C07
